@@ -612,7 +612,20 @@ type simNode struct {
 	cid  int
 }
 
-func evolveLayer(r *rand.Rand, state map[string]simNode, focus []string, limit int64) []ent {
+// With gone != nil the evolution is "strict": a path deleted once is never created again (nor anything beneath it), so
+// that every view of the image satisfies the hypothesis H of C04_view_partial (the dedicated H stream).
+func evolveLayer(r *rand.Rand, state map[string]simNode, focus []string, limit int64, gone map[string]bool) []ent {
+	blocked := func(p string) bool {
+		if gone == nil {
+			return false
+		}
+		for q := p; q != "." && q != "/"; q = path.Dir(q) {
+			if gone[q] {
+				return true
+			}
+		}
+		return false
+	}
 	type op struct {
 		p  string
 		wh bool
@@ -631,6 +644,7 @@ func evolveLayer(r *rand.Rand, state map[string]simNode, focus []string, limit i
 				}
 				n = simNode{dir: true, mode: dirModes[r.Intn(4)]}
 				state[a] = n
+				ops[a] = op{p: a, n: n} // also when this step had written a file there
 			}
 			if o, ok := ops[a]; !ok || o.wh {
 				ops[a] = op{p: a, n: n}
@@ -644,6 +658,9 @@ func evolveLayer(r *rand.Rand, state map[string]simNode, focus []string, limit i
 			if n, ok := state[p]; ok && n.dir {
 				continue
 			}
+			if blocked(p) {
+				continue
+			}
 			touchParents(p)
 			n := simNode{mode: fileModes[r.Intn(4)], size: sizeFor(r, limit), cid: r.Intn(26)}
 			if int64(n.size) >= limit {
@@ -653,6 +670,9 @@ func evolveLayer(r *rand.Rand, state map[string]simNode, focus []string, limit i
 			ops[p] = op{p: p, n: n}
 		case x < 65: // mkdir
 			if _, ok := state[p]; ok {
+				continue
+			}
+			if blocked(p) {
 				continue
 			}
 			touchParents(p)
@@ -682,6 +702,9 @@ func evolveLayer(r *rand.Rand, state map[string]simNode, focus []string, limit i
 			}
 			touchParents(p)
 			ops[p] = op{p: p, wh: true}
+			if gone != nil {
+				gone[p] = true
+			}
 		}
 	}
 	keys := make([]string, 0, len(ops))
@@ -761,11 +784,17 @@ func randCase(r *rand.Rand) tcase {
 	}
 	nl := 1 + r.Intn(5)
 	mode := r.Intn(100)
+	if m := os.Getenv("C04_MODE"); m != "" { // development aid: force one stream
+		mode, _ = strconv.Atoi(m)
+	}
 	state := map[string]simNode{}
+	gone := map[string]bool{}
 	for i := 0; i < nl; i++ {
 		switch {
+		case mode < 25: // the H stream
+			c.layers = append(c.layers, evolveLayer(r, state, focus, c.limit, gone))
 		case mode < 40:
-			c.layers = append(c.layers, evolveLayer(r, state, focus, c.limit))
+			c.layers = append(c.layers, evolveLayer(r, state, focus, c.limit, nil))
 		case mode < 90:
 			c.layers = append(c.layers, randLayer(r, focus, c.limit, false))
 		default:
